@@ -1,5 +1,86 @@
-(* C20 -- placeholder while the development is being built *)
-From Coq Require Import ZArith List String.
-Require Import Verif.lib.PyLite Verif.lib.Regex Verif.gen.FurlGen Verif.lib.Furl.
-Theorem C20_stub : True. Proof. exact I. Qed.
-Print Assumptions C20_stub.
+(* C20 -- FURLs and connection hints parse totally, reversibly and in bounded time.
+   Property theorems only; proofs live in lib/RegexProofs.v and lib/FurlProofs.v.  The patterns,
+   constants and shape facts (gen/FurlGen.v) are re-translated from the source on every run. *)
+From Coq Require Import ZArith NArith List String.
+Import ListNotations.
+Require Import Verif.lib.PyLite Verif.lib.Regex Verif.lib.RegexProofs Verif.gen.FurlGen Verif.lib.Furl Verif.lib.FurlProofs.
+Local Open Scope Z_scope.
+
+(* "Parsing a FURL either yields (tub id, hints, name) ... or raises the documented bad-FURL error":
+   decode_furl has no other outcome than a triple, BadFURLError or ValueError *)
+Theorem C20_decode_total : forall s,
+  (exists t hs n, decode_furl s = Ok (t, hs, n)) \/ decode_furl s = Exc "BadFURLError" \/ decode_furl s = Exc "ValueError".
+Proof. exact decode_total. Qed.
+Print Assumptions C20_decode_total.
+
+(* "... such that re-encoding gives an equivalent FURL": whatever decode_furl returns decodes, after
+   encode_furl, to the same triple *)
+Theorem C20_decode_encode : forall s t hs n,
+  decode_furl s = Ok (t, hs, n) -> decode_furl (encode_furl t hs n) = Ok (t, hs, n).
+Proof. exact decode_encode. Qed.
+Print Assumptions C20_decode_encode.
+
+(* the same from the encoder's side, under the stated well-formedness: a non-empty base32 tub id of
+   at most TUBID_CUT characters, hints non-empty without ',' and '/', a non-empty name without newline *)
+Theorem C20_decode_encode_wf : forall t hs n,
+  (t <> [] /\ (List.length t <= TUBID_CUT)%nat /\ is_base32 t = true /\
+   Forall (fun h => h <> [] /\ ~ In HINT_SEP h /\ ~ In 47 h) hs /\ n <> [] /\ ~ In 10 n) ->
+  decode_furl (encode_furl t hs n) = Ok (t, hs, n).
+Proof. exact decode_encode_wf. Qed.
+Print Assumptions C20_decode_encode_wf.
+
+(* ... and every decoded triple is well-formed in that sense *)
+Theorem C20_decode_wf : forall s t hs n, decode_furl s = Ok (t, hs, n) ->
+  t <> [] /\ (List.length t <= TUBID_CUT)%nat /\ is_base32 t = true /\
+  Forall (fun h => h <> [] /\ ~ In HINT_SEP h /\ ~ In 47 h) hs /\ n <> [] /\ ~ In 10 n.
+Proof. exact decode_wf. Qed.
+Print Assumptions C20_decode_wf.
+
+(* "two references compare equal exactly when tub id and name are equal" (SturdyRef.__eq__ over the
+   translated _distinguishers), equal references hash alike, TubRef identity is the tub id *)
+Theorem C20_sturdy_eq : forall a b, sref_eqb a b = true <-> (sr_tub a = sr_tub b /\ sr_name a = sr_name b).
+Proof. exact sturdy_eq. Qed.
+Print Assumptions C20_sturdy_eq.
+
+Theorem C20_sturdy_hash : forall a b, sref_eqb a b = true -> sref_key a = sref_key b.
+Proof. exact sturdy_hash. Qed.
+Print Assumptions C20_sturdy_hash.
+
+Theorem C20_tubref_eq : forall a b, tubref_eqb a b = true <-> sr_tub a = sr_tub b.
+Proof. exact tubref_eq. Qed.
+Print Assumptions C20_tubref_eq.
+
+(* "Classifying a connection hint ... ends in an endpoint or the documented invalid-hint error - never
+   another exception", for all registered handler sets (type name -> tcp / tor / i2p handler), all
+   address filters, all strings *)
+Theorem C20_hint_total : forall (handlers : list (str * hkind)) (nonpublic : str -> bool) (loc : str),
+  (exists e, get_endpoint handlers nonpublic loc = Ok e) \/ get_endpoint handlers nonpublic loc = Exc "InvalidHintError".
+Proof. exact hint_total. Qed.
+Print Assumptions C20_hint_total.
+
+(* "... always terminates in time proportional to its length": for each of the four translated hint
+   patterns, applied the way the source applies it, the backtracking matcher takes at most
+   hint_K * (|s| + 1) steps on EVERY subject s *)
+Theorem C20_hint_linear : forall p meth,
+  In (p, meth) [(OLD_STYLE_HINT_RE, OLD_STYLE_HINT_RE_method); (NEW_STYLE_HINT_RE, NEW_STYLE_HINT_RE_method);
+                (TOR_HINT_RE, TOR_HINT_RE_method); (I2P_HINT_RE, I2P_HINT_RE_method)] ->
+  forall s, (re_steps p meth s <= hint_K * (N.of_nat (List.length s) + 1))%N.
+Proof. exact hint_linear. Qed.
+Print Assumptions C20_hint_linear.
+
+(* the generic form: any pattern accepted by the static analysis and tried at position 0 only *)
+Theorem C20_linear_analysis_sound : forall p meth Kb, linear_bound p meth = Some Kb ->
+  forall s, (re_steps p meth s <= Kb * (N.of_nat (List.length s) + 1))%N.
+Proof. exact linear_bound_sound. Qed.
+Print Assumptions C20_linear_analysis_sound.
+
+(* FURL matching terminates within a quadratic number of steps.  (A linear bound does NOT hold:
+   AUTH_STURDYREF_RE is unanchored and applied with .search(); FurlProofs.furl_quadratic_witness and
+   the known finding oracle/furl-quadratic.)
+   full-strength statement that is refuted by the witness:
+     forall s, re_steps AUTH_STURDYREF_RE AUTH_STURDYREF_RE_method s <= K * (|s| + 1)  *)
+Theorem C20_furl_steps_bounded_partial : forall s,
+  (re_steps AUTH_STURDYREF_RE AUTH_STURDYREF_RE_method s
+   <= (N.of_nat (List.length s) + 1) * (furl_K * (N.of_nat (List.length s) + 1) + 1))%N.
+Proof. exact furl_steps_bounded. Qed.
+Print Assumptions C20_furl_steps_bounded_partial.
